@@ -28,6 +28,7 @@ type ScriptConn struct {
 	Writes  [][]byte
 	wrote   chan struct{}
 	consumed chan struct{}
+	endErr  error // when set: what Read returns once every chunk has been read (the peer died); otherwise Read blocks until Close
 }
 
 func NewScriptConn(chunks [][]byte) *ScriptConn {
@@ -67,7 +68,11 @@ func (c *ScriptConn) Read(p []byte) (int, error) {
 		return n, nil
 	}
 	dl := c.rdl
+	endErr := c.endErr
 	c.mu.Unlock()
+	if endErr != nil {
+		return 0, endErr
+	}
 	if !dl.IsZero() {
 		// an idle connection with a read deadline: time out instead of blocking for ever
 		select {
@@ -153,6 +158,10 @@ type ConnScript struct {
 	Chunks []int `json:"chunks"` // sizes of the read chunks (sum = total stream length)
 	GapsMs []int `json:"gapsMs"` // read timing: chunk i arrives this long after chunk i-1 was read (missing: at once)
 	Out    int   `json:"out"`    // number of outbound messages to hand to this connection
+	// Tail: bytes of a further, INCOMPLETE message that follow the complete ones; Dies: "" (the connection stays open), "eof" or
+	// "reset": what the reader gets after the last byte.  The next connection of the scenario is opened only after this one died.
+	Tail B      `json:"tail"`
+	Dies string `json:"dies"`
 }
 
 type FScenario struct {
@@ -222,6 +231,7 @@ func chunksOf(cs *ConnScript) [][]byte {
 	for _, m := range cs.Sent {
 		stream = append(stream, m.bytes()...)
 	}
+	stream = append(stream, cs.Tail.bytes()...)
 	var out [][]byte
 	off := 0
 	for _, n := range cs.Chunks {
@@ -264,6 +274,12 @@ func RunFraming(sc *FScenario) ([]FrameObs, string) {
 		for _, g := range sc.Conns[i].GapsMs {
 			conns[i].gaps = append(conns[i].gaps, time.Duration(g)*time.Millisecond)
 		}
+		switch sc.Conns[i].Dies {
+		case "eof":
+			conns[i].endErr = io.EOF
+		case "reset":
+			conns[i].endErr = errors.New("read: connection reset by peer")
+		}
 		recs[i] = &rec{}
 	}
 	var cleanup func()
@@ -300,6 +316,14 @@ func RunFraming(sc *FScenario) ([]FrameObs, string) {
 			case <-ready:
 			case <-time.After(2 * time.Second):
 				return nil, "acceptor did not create a handler for a connection"
+			}
+			if sc.Conns[i].Dies != "" {
+				// the next connection starts after this one has died and its reader has had time to go away
+				select {
+				case <-conns[i].consumed:
+				case <-time.After(2 * time.Second):
+				}
+				time.Sleep(5 * time.Millisecond)
 			}
 		}
 		cleanup = func() { acc.Close(); l.Close() }
@@ -360,6 +384,11 @@ func RunFraming(sc *FScenario) ([]FrameObs, string) {
 		}
 		conns[i].mu.Unlock()
 		recs[i].mu.Unlock()
+		// a connection whose peer died: the property says nothing about messages still on their way to the handler at that moment;
+		// what WAS delivered must still be exactly the first messages the peer sent
+		if sc.Conns[i].Dies != "" && len(o.Delivered) < len(o.Sent) {
+			o.Sent = o.Sent[:len(o.Delivered)]
+		}
 		if o.Delivered == nil {
 			o.Delivered = []B{}
 		}
